@@ -1,7 +1,8 @@
 """C18 — Linked parameters stay mutually consistent.
 
 Four families of generated modules on a real SecNode/Dispatcher (vlib.node): StructParam layouts, FloatEnumParam
-label sets, Limit configurations, 1..3 HasOutputModule inputs on one HasControlledBy output.  Every operation of a
+label sets (catalogue + SI-scaled), Limit configurations over class hierarchies with check_<p> methods, inputs wired to
+1..3 HasControlledBy outputs; plus a correspondence-only stream for the labels argument of FloatEnumParam.  Every operation of a
 generated history is issued on the real code (dispatcher request or driver-side call/assignment); after every
 operation all linked parameter values and the update stream are recorded.  The Lean model replays the same history
 with the same oracle outputs (correspondence), the Lean monitors judge the recorded values (failing-input search).
@@ -15,37 +16,46 @@ from vlib.shrink import ddmin
 from vlib.node import Node
 
 META = {
-    'level_text': 'Theorems for all histories of client reads/writes and driver-side calls/assignments: struct_members_agree (struct[m] = '
-                  'member m after every operation, both layouts, any oracle outcome of the driver bodies incl. SECoP errors and arbitrary '
-                  'exceptions at any member position of a struct access), floatenum_consistent (value = valuedict[index] after every '
-                  'operation incl. driver-side assignment to the float itself; a write hands the driver an index whose value no other '
-                  'label is closer to) + closest_first_minimum (tie rule of min()), limits_enforced (an accepted write is inside every '
-                  'limit parameter current at that moment; an inverted limits pair is refused and changes nothing), single_controller '
-                  '(per output, any wiring of inputs to several outputs) + takeover_switches_off + outputs_independent (an operation on '
-                  'one output changes nothing of another) + controlled_by_names_active.  Models tied to frappy/extparams.py, '
-                  'params.Limit, modulebase.checkLimits and mixins.py by a correspondence run on real modules behind a real dispatcher; '
-                  'the Lean monitors judge the values recorded after every operation.',
+    'level_text': 'Theorems for all histories of client reads/writes and driver-side calls/assignments, with and without the omission of '
+                  'unchanged updates (omit_unchanged_within 0 / longer than the history; the default 0.1 s lies in between) and for any '
+                  'pending-error flags at start: struct_members_agree (struct[m] = member m after every operation; every layout: '
+                  'read_/write_<struct> both, one of them or none, own read_/write_<m> for any members; any oracle outcome of the driver '
+                  'bodies incl. SECoP errors and arbitrary exceptions at any member position of a struct access), floatenum_consistent '
+                  '(value = valuedict[index] after every operation; a write hands the driver an index whose value no other label is closer '
+                  'to; a driver-side assignment to the float leaves such an index, however close the assigned value is to the current one) '
+                  '+ closest_first_minimum (tie rule of min()) + labels_wellformed / floatenum_consistent_of_labels (the hypotheses about '
+                  'valuedict are facts about every label list FloatEnumParam.__init__ accepts), limits_enforced (for every class layout of '
+                  'the limit parameters and of programmer-written check_<p> methods along the MRO: an accepted write is inside every limit '
+                  'parameter current at that moment whenever the automatic check applies - in particular an inherited check_<p> never '
+                  'switches it off; an inverted limits pair is refused and changes nothing) + limits_enforced_plain, single_controller (per '
+                  'output, any wiring of inputs to several outputs) + takeover_switches_off + outputs_independent + '
+                  'controlled_by_names_active.  Models tied to frappy/extparams.py, params.Limit, modulebase.__init_subclass__/checkLimits '
+                  'and mixins.py by a correspondence run on real modules behind a real dispatcher (values, update stream, pending-error '
+                  'flags after every operation); the Lean monitors judge the values recorded after every operation.',
     'level_note': 'Trusted: Lean kernel + axioms propext/Classical.choice/Quot.sound; values are exact rationals (integers over a common '
-                  'denominator) - binary64 subtraction/comparison is assumed to agree on the generated values; driver method bodies are '
-                  'scripted oracles (value / None / SECoP error / ValueError, KeyError, ZeroDivisionError).',
+                  'denominator) - binary64 subtraction/comparison is assumed to agree on the generated values; driver method bodies and '
+                  'programmer-written check_<p> methods are scripted oracles (value / None / True / SECoP error / ValueError, KeyError, '
+                  'ZeroDivisionError); the conversion of a label text to a number is an oracle (taken from the class itself).',
     'trusted': [
         'float distance comparison: abs(vdict[i] - x) compared in binary64 agrees with the exact rational comparison on the generated '
-        'values (dyadic values are exact; for label-derived values the generator keeps x away from near-ties)',
+        'values (dyadic values and one-ulp / 2^-k neighbours of label values are exact; otherwise the generator keeps x away from near-ties)',
         'FloatRange.validate tolerance band (values outside the range by less than the resolution are clamped) is not modelled; the '
-        'generator keeps out-of-range values clearly outside',
+        'generator keeps out-of-range values clearly outside (at every scale)',
         'driver glue: which clause applies to a control operation (take-over by input k / by the output / none) is read off the '
-        'operation and the flags recorded before it',
+        'operation and the flags recorded before it; which check_<p> returned True is recorded by the scripted check methods',
+        'the two extremes of omit_unchanged_within (0 and 10^6 s) stand for every timing under the default window',
     ],
     'modelled_not_verified': [
-        'HasAccessibles.__init_subclass__ read/write wrappers and Module.announceUpdate (callbacks, update message) as used by the '
-        'linked parameters, with omit_unchanged_within = 0',
+        'HasAccessibles.__init_subclass__ read/write wrappers and Module.announceUpdate (callbacks, update message, omission of '
+        'unchanged updates, readerror / never-announced flags) as used by the linked parameters',
         'Dispatcher._setParameterValue/_getParameterValue (import + validate, then write_/read_)',
         'StructOf / FloatRange / EnumType / LimitsType validation of well-formed values',
     ],
     'assumptions': [
-        'user-written read_/write_ bodies are oracles: they return a value of the datatype, None, or raise',
+        'user-written read_/write_/check_ bodies are oracles: they return a value of the datatype, None (True), or raise',
         'control_active and controlled_by are changed only through the mixin methods (they are readonly for clients)',
-        'sequential histories (one request or driver call at a time)',
+        'sequential histories (one request or driver call at a time); start-up with configured values (writeInitParams) is not part of a history',
+        'the member names of a struct are distinct (keys of a dict)',
     ],
 }
 
@@ -141,7 +151,7 @@ def cleanup_nodes():
 
 
 OMIT_WINDOW = 1e6       # seconds: every announcement of an unchanged value (without a pending error) is omitted
-OMIT_MODELLED = {'floatenum', 'limits', 'control', 'struct'}   # families whose model covers the omission of unchanged updates (the others: judged only)
+OMIT_MODELLED = {'floatenum', 'limits', 'control', 'struct'}   # families whose model covers the omission of unchanged updates (all; a family missing here would be judged only)
 
 
 def pending(pobj):
@@ -1349,7 +1359,9 @@ def run(ctx):
     res.rule = ('generated modules x operation histories (depth <= 12 quick / 30 thorough), client requests through the real dispatcher '
                 'and driver-side calls/assignments mixed.  non-trivial: struct - at least two accepted operations and three distinct '
                 'struct values; floatenum - the index changed and a float write was accepted; limits - a write accepted, a write '
-                'refused and a limit moved; control - at least three distinct (controlled_by, control_active) states')
+                'refused and a limit moved; control - at least three distinct (controlled_by, control_active) states; labels - an '
+                'accepted label list with at least two values, not all bare labels.  40 % of the histories run with omission of '
+                'unchanged updates (omit_unchanged_within = 10^6 s), the others with 0')
     big = ctx.tier == 'thorough' or ctx.escalated
     rng = ctx.rng
     cases = []
